@@ -589,6 +589,8 @@ func judgeTyped(args, real, _ json.RawMessage) *core.Verdict {
 				// converted by the type's own DecodeMapstructure, not by the casters
 				key += ":" + a.Kind
 			}
+		} else if a.Kind == "nanocpus" || a.Kind == "devicecount" || a.Kind == "bytes" {
+			// key stays typed:literal-vs-variable:<kind> (the type's own decoder rejects or misreads the text)
 		} else if !converted && !Qs.isOk() {
 			key = "typed:no-conversion:" + a.Pat
 		}
